@@ -89,7 +89,7 @@ class Plan:
 
 
 class BoundedStandIn:
-    def __init__(self, name, script, args, bound, functions, thorough_args=None, timeout=900):
+    def __init__(self, name, script, args, bound, functions, thorough_args=None, timeout=1800):
         self.name, self.script, self.args, self.bound, self.functions = name, script, args, bound, functions
         self.thorough_args = thorough_args or args
         self.timeout = timeout
